@@ -1404,6 +1404,13 @@ func (c *Conn) sendPending(id uint32) error {
 
 		err := c.flushData(id, body, end)
 
+		// The stream is closed while the Ctx is still held: END_STREAM is on
+		// the wire, so the response may resolve the request, and the caller
+		// may hand the Request back, as soon as the Ctx is let go.
+		if err == nil && end {
+			c.closeBodyStream(pb)
+		}
+
 		pb.ctx.release()
 
 		if err != nil {
@@ -1411,7 +1418,6 @@ func (c *Conn) sendPending(id uint32) error {
 		}
 
 		if end {
-			c.closeBodyStream(pb)
 			return nil
 		}
 	}
